@@ -809,6 +809,8 @@ Proof.
   - destruct (IH (apply_update_cc w o' out)) as [A B]. rewrite A, B. unfold apply_update_cc.
     destruct out; try (split; reflexivity); destruct (find_cc (o_name o') (w_ccs w)) as [c|]; try (split; reflexivity);
       destruct (negb (o_rv c =? o_rv o')); try (split; reflexivity); match goal with |- context [if ?b then _ else _] => destruct b end; split; reflexivity.
+  - match goal with |- context [apply_create_cc w ?x ?y] => destruct (IH (apply_create_cc w x y)) as [A B]; rewrite A, B;
+      destruct (apply_create_cc_frame w x y) as (_ & _ & _ & H1 & _ & _ & _ & _ & _ & _ & H2 & _) end. split; assumption.
 Qed.
 Lemma ws_apply_effects w fx : WS w -> WS (apply_effects w fx).
 Proof. intros H. destruct (apply_effects_cs fx w) as [A B]. exact (ws_same w _ H A B). Qed.
@@ -939,10 +941,11 @@ Section WorldSvc.
     - apply ws_none. reflexivity.
     - (* Construct *)
       destruct (w_ctl w) as [m0|] eqn:Em; [exact S|].
-      destruct (construct po lab (w_ccs w) outs svc1 svc2 (map node_view (w_nodes w))) as [[m fx] pan] eqn:Ec.
-      cbn [fst]. destruct Ho as [H1 H2]. apply ws_apply_effects.
+      destruct (construct po lab (with_default dp (w_ccs w)) outs svc1 svc2 (map node_view (w_nodes w))) as [[m fx] pan] eqn:Ec.
+      cbn [fst]. destruct Ho as (H1 & H2 & Hdp). apply ws_apply_effects.
+      assert (Hgood : Forall good_obj (with_default dp (w_ccs w))) by (apply with_default_good; [exact Hdp|exact (wi_ccs w I)]).
       intros m1 E. cbn in E. destruct pan; [discriminate|]. inversion E; subst m1. cbn [w_svc].
-      eapply construct_svc; [exact (wi_ccs w I)| |exact H1|exact H2|exact Ec].
+      eapply construct_svc; [exact Hgood| |exact H1|exact H2|exact Ec].
       rewrite Forall_forall. intros n Hn. apply in_map_iff in Hn. destruct Hn as (a & <- & Ha). apply wf_node_view. eapply in_anodes_wf; eassumption.
     - (* StartInformers *)
       destruct (w_ctl w) as [m|] eqn:Em; [|exact S]. destruct (w_synced w); [exact S|]. apply (ws_same w); [exact S|cbn; symmetry; exact Em|reflexivity].
@@ -1021,7 +1024,7 @@ Section WorldSvc.
       pose proof (run_cc_sync_no_patch _ _ _ _ _ _ Er _ He2) as Hp. discriminate Hp.
     - destruct (w_ctl w) as [m|]; [inversion H; subst; destruct He|].
       unfold construct in H.
-      destruct (bootstrap_ccs [] (w_ccs w) outs) as [m1 fx] eqn:Eb.
+      destruct (bootstrap_ccs [] (with_default dp (w_ccs w)) outs) as [m1 fx] eqn:Eb.
       match type of H with context [occupy_nodes po lab ?m3 ?ns] => destruct (occupy_nodes po lab m3 ns) as [m4 pan] end.
       inversion H; subst. cbn [ob_fx] in He.
       pose proof (bootstrap_no_patch _ _ _ _ _ Eb _ He) as Hp. discriminate Hp.
